@@ -101,6 +101,14 @@ M = [
     ('C11', 'trailing-blanks-signed-again', 'pgpy/pgp.py', "        if self.type != 'cleartext':\n            return self.message\n", "        if True:\n            return self.message\n"),
     ('C11', 'crlf-normalisation-removed', 'pgpy/pgp.py', "            cleartext = unarmored['cleartext'].replace('\\r\\n', '\\n')\n            if cleartext.endswith('\\r'):\n                cleartext = cleartext[:-1]", "            cleartext = unarmored['cleartext']"),
     ('C11', 'text-signature-type-binary', 'pgpy/pgp.py', "                sig_type = SignatureType.CanonicalDocument\n                subject = subject._signed_text", "                subject = subject._signed_text"),
+    ('C15', 'selfsig-oldest-first', 'pgpy/pgp.py', "            for sig in reversed(self._signatures):\n                if sig.signer_fingerprint:", "            for sig in self._signatures:\n                if sig.signer_fingerprint:"),
+    ('C15', 'del-uid-leaves-uid', 'pgpy/pgp.py', "        u._parent = None\n        self._uids.remove(u)", "        u._parent = None"),
+    ('C15', 'bind-omits-cross-signature', 'pgpy/pgp.py', "                sig._signature.subpackets.addnew('EmbeddedSignature', hashed=False, _sig=crosssig._signature)", "                pass"),
+    ('C15', 'expires-at-first-uid-only', 'pgpy/pgp.py', "        for sig in iter(uid.selfsig for uid in self.userids if uid.selfsig):\n            if sig.key_expiration is not None:\n                expires = sig.key_expiration", "        for sig in iter(uid.selfsig for uid in list(self.userids)[:1] if uid.selfsig):\n            if sig.key_expiration is not None:\n                expires = timedelta(seconds=1) + sig.key_expiration"),
+    ('C15', 'revocation-signatures-ignores-type', 'pgpy/pgp.py', "                        if all([sig.type == keytype, sig.signer == keyid, not sig.is_expired])):\n            yield sig\n\n    @property\n    def subkeys", "                        if all([sig.signer == keyid, not sig.is_expired])):\n            yield sig\n\n    @property\n    def subkeys"),
+    ('C15', 'revoke-uid-signs-wrong-uid', 'pgpy/pgp.py', "        return self._sign(target, sig, **prefs)", "        return self._sign(target if not isinstance(target, PGPUID) else next(iter(self.userids)), sig, **prefs)"),
+    ('C15', 'primary-flag-inverted', 'pgpy/packet/subpackets/signature.py', "        _bytes += self.int_to_bytes(int(self.primary))", "        _bytes += self.int_to_bytes(int(not self.primary))"),
+    ('C15', 'add-subkey-binds-with-wrong-primary', 'pgpy/pgp.py', "            if subject.is_primary:\n                _s = subject.subkeys[self.signer].hashdata\n\n            else:\n                _s = subject.hashdata", "            if subject.is_primary:\n                _s = subject.subkeys[self.signer].hashdata\n\n            else:\n                _s = subject.hashdata if self.type != SignatureType.PrimaryKey_Binding else subject._parent.hashdata"),
 ]
 
 
@@ -116,6 +124,8 @@ def apply(root, m):
         s = s.replace(o, n)
     if name == 'encrypt-to-first-subkey-regardless-of-flags':
         s = s.replace("from .errors import PGPError", "from .errors import PGPError\nfrom .constants import KeyFlags as _KF\nKeyFlags_Enc = {_KF.EncryptCommunications, _KF.EncryptStorage}", 1)
+    if name == 'expires-at-first-uid-only':
+        s = s.replace('from datetime import datetime, timezone', 'from datetime import datetime, timezone, timedelta', 1)
     if name == 'session-key-cached':
         s = s.replace("__all__ = ['PGPSignature',", "_SK = {}\n__all__ = ['PGPSignature',", 1)
     open(p, 'w').write(s)
